@@ -73,7 +73,7 @@ Fixpoint fac_prox (f : fac) : @factory Q :=
   | KCCL1 lam g => fun s x =>
       match s, g with
       | SVec v, None => (* element-valued step without g: the step is unused *) Ok (prox_cc_l1 lam None 0 x)
-      | SVec v, Some _ => Err EType
+      | SVec v, Some g' => Ok (prox_cc_l1v lam g' v x)
       | _, _ => scalar_only s (fun sg => Ok (prox_cc_l1 lam g sg x))
       end
   | KL2 w lam g => fun s x => scalar_only s (fun sg => Ok (prox_l2 w lam g sg x))
